@@ -78,13 +78,25 @@ def run(tier, replay=None):
               "reach a NoConflict violation, each forced in the real handler with the verif gates; (V) seeded configurations of "
               "2..8 tracks x 1..4 channels (video/audio/text, languages, with/without basic auth and per-representation config, "
               "Streams() / segment URLs, with/without Content-Length) uploaded with real goroutines, all inits at once or "
-              "sender-like, repeated; everything in a child built with -race; distinct = distinct schedules + distinct "
+              "sender-like, repeated; (R) every behaviour of the start-transition explorer (snap/body of two in-flight uploads x "
+              "the master segment that starts the channel) forced with gated request bodies on channels that WILL be shifted "
+              "(repo test data zero_3.84s, awsMediaLiveScte35 with startNr 0), judged against the sequential runs of every subset "
+              "of uploads placed before the start; the same transition with plain goroutines; (V) 2..4 channels in ONE storage "
+              "directory (unshifted / number-shifted / time-shifted, channel-unique track names) fed for many rounds on a common "
+              "clock with a look at every channel's MPDs after every round; (R) burst: the explorer states in which ALL handlers stand "
+              "at the same label (add / reg, then trdatas_r), 3..8 tracks that share AdaptationSets held at that gate and released at "
+              "once; everything in a child built with -race; distinct = distinct schedules + distinct "
               "concurrent configurations; every scenario has >= 2 concurrent first uploads")
     c.assumptions = ["all uploads are well-formed and correctly authenticated by construction, so any answer other than 200 is a lost upload",
                      "the sequential outcome of these uploads is order-independent modulo AdaptationSet ids/order and Representation order "
                      "(checked on every scenario: clause M.ref_order_independent is a machinery error, not a verdict); Representation@bandwidth "
                      "is not compared (the receiver estimates it from the segments buffered at that moment)",
-                     "media segments carry sequence number = time/duration so that the receiver stores them unchanged",
+                     "media segments of unshifted channels carry sequence number = time/duration so that the receiver stores them unchanged; "
+                     "for channels that renumber / re-time, 'stored' = a new or rewritten file of the track's own directory carries the "
+                     "uploaded mdat payload",
+                     "sequential reference = every upload processed completely (channel goroutine included) before the next one",
+                     "rounds scenarios: shifted channels tune in sequentially (rounds 0,1), the transition itself is the subject of the "
+                     "start scenarios",
                      "race clause: Go race detector / runtime concurrent-map check (sound, not complete); a child killed by the runtime is "
                      "restarted after the scenario that killed it",
                      "steps on the channel table are forced exactly; stream-table / track-table gate releases are not followed by a wait, "
@@ -106,6 +118,10 @@ def run(tier, replay=None):
         (GEN, "ReceiverConcGen_logic3sim.cfg", dict(workers=1, coverage=False, simulate=f"num={nsim3}", depth=100, seed_arg=c.seed)),
         (GEN, "ReceiverConcGen_logic22sim.cfg", dict(workers=1, coverage=False, simulate=f"num={nsim22}", depth=100, seed_arg=c.seed + 1000)),
     ]
+    # channel START transition: the handler's view of the master values (one snapshot = the code as it is)
+    jobs += [("ReceiverConcStart", "ReceiverConcStart_gen.cfg", dict(workers=1, coverage=False)),
+             ("ReceiverConcStart", "ReceiverConcStart_cex_splitread.cfg", dict(workers=1, expect="violation",
+                                                                              expect_violated=("ViewConsistent", "NoLoss"), coverage=False))]
     if not quick:
         jobs.append((IMPL, "ReceiverConcImpl_design_full.cfg", dict(workers=wk, required_actions=("add", "s3", "reg", "m3"))))
     res = c.models(jobs)
@@ -115,6 +131,11 @@ def run(tier, replay=None):
             raise MachineryError(f"explorer: the design counterexample for {name} was not found ({r.status} {r.violated})")
     c.extra["design_counterexamples"] = {"OneChannel": res[0].summary(), "Registered": res[1].summary(), "NoConflict": res[2].summary()}
     c.extra["fixed_design_model"] = res[3].summary()
+    if res[9].status != "invariant":
+        raise MachineryError(f"explorer: split-read counterexample of the start transition not found ({res[9].status})")
+    sgens = _dedupe(vlib.tlc_printed_json(res[8], "GENS"))
+    if len(sgens) < 20:
+        raise MachineryError(f"start-transition generator produced {len(sgens)} behaviours")
     logic2 = _dedupe(vlib.tlc_printed_json(res[4], "GEN"))
     conflicts = _dedupe(vlib.tlc_printed_json(res[5], "GENC"))
     sim3 = _dedupe(vlib.tlc_printed_json(res[6], "GEN"))
@@ -138,7 +159,11 @@ def run(tier, replay=None):
     with open(genf, "w") as f:
         for g in gens:
             f.write(json.dumps(g) + "\n")
-    c.extra["generated"] = {"logic_2handlers_exhaustive": len(logic2), "logic_3handlers_simulated": len(sim3),
+    sgenf = c.work / "sgen.jsonl"
+    with open(sgenf, "w") as f:
+        for g in sgens:
+            f.write(json.dumps(g) + "\n")
+    c.extra["generated"] = {"start_transition_behaviours_exhaustive": len(sgens), "logic_2handlers_exhaustive": len(logic2), "logic_3handlers_simulated": len(sim3),
                             "logic_2plus2_two_channels_simulated": len(sim22), "conflict_prefixes_total": len(conflicts),
                             "conflict_classes": len(cls), "conflict_prefixes_replayed": len(chosen_conf),
                             "predicting_two_objects": sum(1 for g in logic2 + sim3 + sim22 if max(g["createdA"], g["createdB"]) > 1)}
@@ -148,9 +173,13 @@ def run(tier, replay=None):
     # the trace holds whole scenarios only, the child is restarted after the scenario that killed it
     drive = _build(True)
     shapes, reps = (10, 3) if quick else (60, 8)
-    total = len(gens) + shapes * reps
+    nsets, nstartconc, nrounds, roundlen = (2, 4, 6, 14) if quick else (4, 25, 40, 24)
+    nbursts, burstreps = (3, 5) if quick else (20, 10)
+    total = len(gens) + len(sgens) * nsets + nstartconc * nsets + shapes * reps + nrounds + nbursts * 2 * burstreps
     max_children = 40 if quick else 400
-    base = ["-gen", genf, "-seed", c.seed, "-shapes", shapes, "-reps", reps, "-tmp", c.work]
+    base = ["-gen", genf, "-sgen", sgenf, "-startsets", nsets, "-startconc", nstartconc, "-rounds", nrounds, "-roundlen", roundlen,
+            "-bursts", nbursts, "-burstreps", burstreps,
+            "-seed", c.seed, "-shapes", shapes, "-reps", reps, "-tmp", c.work]
     parts, sites, crashes, start = [], {}, [], 0
     while start < total and len(parts) < max_children:
         part = c.work / f"part{len(parts)}.ndjson"
@@ -193,9 +222,9 @@ def run(tier, replay=None):
         if ev == "hdr":
             cur = e
             kinds[e["kind"]] = kinds.get(e["kind"], 0) + 1
-            distinct.add((e["kind"], e.get("steps") or (e["shape"], e["sender"])))
+            distinct.add((e["kind"], e.get("variant"), e.get("steps") or (e["shape"], e["sender"])))
             if len([s for s in samples if s["kind"] == e["kind"]]) < 2:
-                samples.append({k: e[k] for k in ("kind", "nch", "ntr", "auth", "repcfg", "sender", "steps") if k in e})
+                samples.append({k: e[k] for k in ("kind", "variant", "nch", "ntr", "auth", "repcfg", "sender", "steps", "rounds", "gate") if k in e and e[k] != ""})
         elif ev == "chan_created" and cur is not None:
             objs[(cur["sc"], e["ch"])] = objs.get((cur["sc"], e["ch"]), 0) + 1
         elif ev == "up" and cur is not None and e["seg"] == "init" and e["status"] == 500 and e.get("body") == "":
@@ -213,7 +242,7 @@ def run(tier, replay=None):
         if f["clause"].startswith("M."):
             raise MachineryError(f"oracle assumption broken: {json.dumps(f)[:1500]}")
         h = hdr_at.get(f["line"]) or {}
-        for k in ("kind", "sc", "nch", "ntr", "auth", "repcfg", "sender", "pred_created", "steps"):
+        for k in ("kind", "variant", "sc", "nch", "ntr", "auth", "repcfg", "sender", "pred_created", "steps"):
             if k in h:
                 f.setdefault(k, h[k])
         if h:
@@ -224,20 +253,24 @@ def run(tier, replay=None):
         try:
             d = json.loads(f.get("detail") or "null")
             if isinstance(d, dict):
-                for k in ("files_equal", "mpd_equal", "unprocessed", "quiesced"):
+                for k in ("files_equal", "mpd_equal", "tl_equal", "unprocessed", "quiesced"):
                     if k in d:
                         f[k] = d[k]
         except ValueError:
             pass
-        for k in ("files", "mpd", "tracks", "shape"):
+        for k in ("files", "mpd", "tracks", "shape", "tl", "own", "ids"):
             f.pop(k, None)
         c.add_failure(f)
     # non-vacuity of the binding
-    need = {"hdr", "ref", "chan_created", "up:init", "up:media", "process", "final", "end"}
+    need = {"hdr", "ref", "chan_created", "up:init", "up:media", "process", "final", "end", "mpdcheck"}
     if not need <= seen_ev:
         raise MachineryError(f"vacuity: trace lacks events {sorted(need - seen_ev)}")
     if kinds.get("replay", 0) < 20 and not crashes:
         raise MachineryError(f"vacuity: only {kinds.get('replay', 0)} schedules replayed")
+    if (kinds.get("start", 0) < 20 or kinds.get("rounds", 0) < 1) and not crashes:
+        raise MachineryError(f"vacuity: start / rounds scenarios missing: {kinds}")
+    if kinds.get("burst", 0) < 10 and not crashes:
+        raise MachineryError(f"vacuity: burst scenarios missing: {kinds}")
     c.traces = sum(kinds.values())
     c.events = lines
     c.distinct_nontrivial = len(distinct)
